@@ -21,6 +21,7 @@ EXPLANATION = EXPLANATION + " Added while testing against seeded changes: " + EX
 EXPLANATION = EXPLANATION + ' Round 10: R7 also requires advance to multiply the stored delay by `mult` and reset to restore `initial` and count 0.'
 EXPLANATION = EXPLANATION + ' Rounds 14-15: (R12) the timer raced against a stream request is the configured channel_timeout itself.'
 EXPLANATION = EXPLANATION + ' Rounds 16-17: (R13) the wait before a retry is the value returned by Backoff::advance() itself.'
+EXPLANATION = EXPLANATION + ' Round 18: R10 also rejects batch dequeues (recv_many) of stream requests: there is one parking slot.'
 ASSUMPTIONS = ["Duration arithmetic of Backoff::advance: only the clamping structure is decided (R7: stored state and returned delay are both bounded by max); the numeric delay sequence is left to the repository's unit tests"]
 NOT_DECIDED = "the delay values and the timing of attempts"
 QUICK_CONFIGS = ["default"]
